@@ -12,7 +12,7 @@ import (
 )
 
 // CharPool is chosen to collide with the classes and with itself.
-var CharPool = []string{"a", "b", "c", "A", "B", "O", "0", "1", "5", "7", "S", "l", "I", "!", "-", "_", "*", "@", ".", "z", "Z", "9", "é", "ß", "λ", "正", "💩", "�", " ", "ǆ", "+", ",", "/", "\n"}
+var CharPool = []string{"a", "b", "c", "A", "B", "O", "0", "1", "5", "7", "S", "l", "I", "!", "-", "_", "*", "@", ".", "z", "Z", "9", "é", "ß", "λ", "正", "💩", "�", " ", "ǆ", "+", ",", "/", "\n", "%", "É", "\u0301"}
 
 // AsciiPool is the ASCII part (used where diagnostics must not collide).
 var AsciiPool = CharPool[:22]
@@ -98,6 +98,24 @@ func CharSpec(t *rapid.T, o CharOpts) oracle.CharSpec {
 	for i := 0; i < nreq; i++ {
 		c.RequireSets = append(c.RequireSets, poolString(t, "reqchar", pool, 0, 5))
 	}
+	if len(c.RequireSets) > 0 && len(c.RequireSets) < o.MaxReq && rapid.IntRange(0, 7).Draw(t, "dup_set") == 0 {
+		// the same set given twice (in another order)
+		cs := oracle.Chars(c.RequireSets[0])
+		rev := ""
+		for i := len(cs) - 1; i >= 0; i-- {
+			rev += cs[i]
+		}
+		c.RequireSets = append(c.RequireSets, rev)
+	}
+	if c.Require&31 != 0 && len(c.RequireSets) < o.MaxReq && rapid.IntRange(0, 15).Draw(t, "class_as_set") == 0 {
+		// a class required by flag and again as a custom set of all its members
+		for _, f := range oracle.ClassOrder {
+			if c.Require&f != 0 {
+				c.RequireSets = append(c.RequireSets, oracle.ClassChars[f])
+				break
+			}
+		}
+	}
 	c.ExcludeChars = poolString(t, "exclchar", pool, 0, 4)
 	minL := 1
 	if o.MinLen != 0 {
@@ -147,7 +165,7 @@ var WordPool = []string{
 	"Zulu", "Xray", "NASA", "4", "42", "正確", "馬", "ß", "ice cream", "Ice Cream", "don't", "x_y",
 	"été", "Été", "ñu", "a", "A", "b", "zz", "ǆemal", "ﬁn", "o'neil", "été été", "-", "q", "r", "s", "tt", "uu",
 	// title forms that sort AFTER the word in byte order, and short words whose concatenations collide
-	"ÿves", "Ÿves", "µm", "Μm", "ab", "ba", "ÉTÉ", "ÑU",
+	"ÿves", "Ÿves", "µm", "Μm", "ab", "ba", "ÉTÉ", "ÑU", "Ice cream", "O'neil", "O'Neil", "100%", "%d",
 }
 
 // LowerPool: words that all change under title-casing and have pairwise
@@ -222,7 +240,7 @@ type SepSpec struct {
 var Presets = []string{"SFNone", "SFDigits1", "SFDigits2", "SFDigitsNoAmbiguous1", "SFDigitsNoAmbiguous2", "SFSymbols", "SFDigitsSymbols"}
 
 // ConstSeps are constant separators incl. empty and multi-byte.
-var ConstSeps = []string{"", "-", " ", "¡", "—·", "::"}
+var ConstSeps = []string{"", "-", " ", "¡", "—·", "::", "%", "%s"}
 
 // Sep draws a separator setting. small: only separators with tiny value sets
 // (for enumeration).
